@@ -25,7 +25,8 @@ from ..world import World, run_world
 ID = 'C15'
 LEVEL = 'exploration'
 QUICK_SCALE = 2.5      # the quick tier was enlarged by this factor after MIN_OBS['quick'] was measured
-QUICK_FIXED = ('exhaustive_gap_cases', 'send_failure_sweep_cases')      # counters of fixed-size parts (coverage, enumerations): not scaled
+QUICK_FIXED = ('exhaustive_gap_cases', 'send_failure_sweep_cases', 'xfer_sequences', 'transfer_ops',
+               'transfer_reason_transitions', 'relogins_with_unfinished_transfer')   # fixed-size parts / parts sized after the enlargement: not scaled
 ME = 'me'
 USERS = ('u1', 'u2')
 FLAGS = ('REQUESTED', 'FRIEND', 'TRANSFER')
@@ -34,6 +35,10 @@ TOL = 0.06                    # s; frame arrival times carry up to a few segment
 RETRY_DELAY = {'notexists': 600.0, 'silence': 20.0, 'invisible': 10.0}   # documented: 600 s / 10 s wait + 10 s / 10 s
 RETRY_GRACE = 30.0            # a due retry must be seen within delay + 30 s
 PROMPT = 0.5                  # s; a (non-retry) request reaches the server this soon after the FIFO worker can send it
+PROMPT_XFER = 1.0             # s; the same for a reason set by the transfer manager's management cycle (runs every <= 0.25 s)
+PROMPT_RELOGIN = 20.5         # s; ... for a TRANSFER reason that outlives a disconnect: a management cycle may re-add it
+#                               while there is no session; that worker's attempts (10 s wait + 10 s) become visible late
+XFER_SETTLE = 1.0             # s; after every transfer operation the harness lets the management cycle apply it
 EXH_K = 13                    # k = 0..12 yields in the exhaustive sub-space
 
 RULE = (
@@ -51,7 +56,12 @@ RULE = (
     "also: until the answer is delivered, then k yields); track(f2) is enumerated "
     "exhaustively for all 9 flag pairs (585 cases, both tiers), and a send-failure sweep (144 cases): the connection is "
     "lost k = 0..7 yields after the call that makes the worker send AddUser / RemoveUser, resp. the call runs k yields "
-    "after the loss, for the three ways to close. Non-trivial = >= 1 AddUser for u1/u2 observed; distinct = "
+    "after the loss, for the three ways to close. Family 'xfer' (directed histories + seeded sequences): the TRANSFER "
+    "reason is produced by the transfer manager itself: the workload adds paused downloads from u1/u2 "
+    "(client.transfers.download(user, path, paused=True): a real, unfinished, never served transfer entry), aborts and "
+    "removes them, mixed with direct REQUESTED/FRIEND calls (gap knob as above) and disconnects + re-login; the reason "
+    "'has an unfinished transfer' is folded from the harness' own record of the transfers it created / aborted / removed "
+    "and is re-asserted at every login. Non-trivial = >= 1 AddUser for u1/u2 observed; distinct = "
     "(call sequence with flags, gap classes, consumed behaviours, disconnect positions)."
 )
 ASSUMPTIONS = [
@@ -76,17 +86,28 @@ ASSUMPTIONS = [
     "judged only after a disconnect (R3), not while connected.",
     "Naming of the lost-call mechanism uses a passive look at the tracked-user entry at call time (worker task already "
     "done); verdicts never depend on it.",
-    "SimServer answers AddUser per the script and sends nothing else about u1/u2; the TRANSFER reason is set through the "
-    "same public call the transfer manager uses (no real transfers in these runs).",
+    "SimServer answers AddUser per the script and sends nothing else about u1/u2. Outside the 'xfer' family the TRANSFER "
+    "reason is set through the same public call the transfer manager uses (no transfers in those runs).",
+    "Family 'xfer': reason TRANSFER(u) <=> the harness' record holds a transfer for u that it added and neither aborted "
+    "nor removed (paused downloads do nothing on their own; the record is compared with Transfer.is_finalized() at every "
+    "checkpoint, a difference is a harness error). The harness waits 1 s after every transfer operation (the management "
+    "cycle that turns it into track/untrack calls runs within 0.25 s), so the order of the reason changes is the order "
+    "of the workload's steps; promptness bound 1 s. A reason that outlives a disconnect counts from the next login "
+    "(SessionInitialized requests a cycle); a cycle may also re-add it while there is no session (then flags TRANSFER / "
+    "a retrying worker are not residue, and the first AddUser of the new session may be that worker's retry: bound "
+    "20.5 s after the login). Direct calls in this family use REQUESTED / FRIEND only.",
 ]
 MIN_OBS = {
     'quick': {'sequences': 2150, 'calls_issued': 7000, 'add_user_frames': 3200, 'remove_user_frames': 1000,
-              'retries_judged': 350, 'quiescence_checks': 2500, 'disconnects': 450, 'exhaustive_gap_cases': 585, 'send_failure_sweep_cases': 144},
+              'retries_judged': 350, 'quiescence_checks': 2500, 'disconnects': 450, 'exhaustive_gap_cases': 585, 'send_failure_sweep_cases': 144,
+              'xfer_sequences': 600, 'transfer_ops': 1200, 'transfer_reason_transitions': 900, 'relogins_with_unfinished_transfer': 150},
     'thorough': {'sequences': 60000, 'calls_issued': 250000, 'add_user_frames': 100000, 'remove_user_frames': 30000,
-                 'retries_judged': 15000, 'quiescence_checks': 60000, 'disconnects': 12000, 'exhaustive_gap_cases': 585, 'send_failure_sweep_cases': 144},
+                 'retries_judged': 15000, 'quiescence_checks': 60000, 'disconnects': 12000, 'exhaustive_gap_cases': 585, 'send_failure_sweep_cases': 144,
+                 'xfer_sequences': 20000, 'transfer_ops': 40000, 'transfer_reason_transitions': 30000, 'relogins_with_unfinished_transfer': 5000},
 }
 SHARD_TIMEOUT = {'quick': 600, 'thorough': 5400}
 N_RANDOM = {'quick': 5000, 'thorough': 250000}
+N_XFER = {'quick': 600, 'thorough': 20000}
 EXHAUSTIVE = {'quick': False, 'thorough': False}   # only the named sub-space is exhaustive
 WHAT_FAILS = {
     'lost-call:track-while-worker-finishing': 'a track_user call that runs between the worker task returning and its '
@@ -110,6 +131,9 @@ WHAT_FAILS = {
         'the worker\'s own AddUser/RemoveUser send fails, the connection is closed from inside that send, the CLOSED '
         'listener cancels and awaits the worker that is awaiting the send: cancel() cycle (RecursionError), both tasks '
         'and the CLOSED dispatch hang for ever, session never destroyed',
+    'transfer-reason-outlives-removed-transfer':
+        'TransferManager.remove() of an unfinished transfer: the user is in neither the finished nor the unfinished set '
+        'of the next management cycle, the TRANSFER reason is never withdrawn (no RemoveUser, flags keep TRANSFER)',
     'residue-after-disconnect': 'tracking entry / worker / retry task / flags left after the server connection closed',
 }
 
@@ -248,6 +272,109 @@ def _length_for(i: int, n: int) -> int:
     return min(MAX_CALLS, 4 + int((f - 0.24) / 0.76 * 5))
 
 
+XFER_FLAGS = ('REQUESTED', 'FRIEND')
+
+
+def gen_xfer(seed: int, idx: int, length: int) -> dict:
+    """Sequence of transfer operations (ta = add a paused download, tb = abort, tr = remove), direct REQUESTED/FRIEND
+    calls and disconnects.  Transfers are numbered in the order of their creation."""
+    rng = random.Random(f'{seed}:{ID}:xfer:{idx}')
+    users = USERS[:1] if rng.random() < 0.5 else USERS
+    beh: dict = {}
+    for u in users:
+        r = rng.random()
+        beh[u] = [] if r < 0.6 else [rng.choice(('silence', 'silence', 'notexists'))] if r < 0.9 else \
+            ['exists', rng.choice(('silence', 'notexists'))]
+    r = rng.random()
+    ncuts = 0 if r < 0.35 else (1 if r < 0.85 else 2)
+    cut_at = sorted(rng.randrange(1, length + 1) for _ in range(ncuts))
+    with_remove = rng.random() < 0.3
+    steps: list = []
+    xf: list = []                  # [user, 'unfinished' | 'finalized' | 'removed']
+    have = {u: set() for u in users}
+    for j in range(length + 1):
+        for c in cut_at:
+            if c == j:
+                steps.append({'op': 'x', 'mode': rng.choice(('rst', 'eof', 'cut')), 'gap': gen_gap(rng),
+                              'wait': rng.choice((0.05, 0.05, 1.0, 12.0, 25.0))})
+                for u in users:
+                    have[u].clear()
+        if j == length:
+            break
+        gap = gen_gap(rng) if steps else ['y', 0]
+        live = [n for n, x in enumerate(xf) if x[1] == 'unfinished']
+        there = [n for n, x in enumerate(xf) if x[1] != 'removed']
+        r = rng.random()
+        if not xf or r < 0.28 or (r < 0.6 and not live):
+            u = rng.choice(users)
+            steps.append({'op': 'ta', 'u': u, 'n': len(xf), 'gap': gap})
+            xf.append([u, 'unfinished'])
+        elif r < 0.50 and live:
+            n = rng.choice(live)
+            steps.append({'op': 'tb', 'u': xf[n][0], 'n': n, 'gap': gap})
+            xf[n][1] = 'finalized'
+        elif r < 0.60 and there and with_remove:
+            n = rng.choice(there)
+            steps.append({'op': 'tr', 'u': xf[n][0], 'n': n, 'gap': gap})
+            xf[n][1] = 'removed'
+        else:
+            u = rng.choice(users)
+            if have[u] and rng.random() < 0.5:
+                op, f = 'u', rng.choice(sorted(have[u]))
+                have[u].discard(f)
+            else:
+                op, f = 't', rng.choice(XFER_FLAGS)
+                have[u].add(f)
+            steps.append({'op': op, 'u': u, 'f': f, 'gap': gap})
+    return {'steps': steps, 'beh': beh}
+
+
+def xfer_directed() -> list[dict]:
+    """Shortest histories of the family, every one with a fixed meaning."""
+    y0 = ['y', 0]
+    d = ['d', 0.05, 0]
+
+    def ta(n, u='u1', gap=y0):
+        return {'op': 'ta', 'u': u, 'n': n, 'gap': list(gap)}
+
+    def tb(n, u='u1', gap=d):
+        return {'op': 'tb', 'u': u, 'n': n, 'gap': list(gap)}
+
+    def tr(n, u='u1', gap=d):
+        return {'op': 'tr', 'u': u, 'n': n, 'gap': list(gap)}
+
+    def x(mode, wait=0.05, gap=d):
+        return {'op': 'x', 'mode': mode, 'gap': list(gap), 'wait': wait}
+
+    def c(op, f, u='u1', gap=d):
+        return {'op': op, 'u': u, 'f': f, 'gap': list(gap)}
+    hist = {
+        'add': [ta(0)],
+        'add-abort': [ta(0), tb(0)],
+        'add-add-abort-abort': [ta(0), ta(1), tb(0), tb(1)],
+        'add-abort-add': [ta(0), tb(0), ta(1)],
+        'add-abort-remove': [ta(0), tb(0), tr(0)],
+        'add-remove': [ta(0), tr(0)],
+        'add-two-users-abort-one': [ta(0), ta(1, 'u2'), tb(0)],
+        'add-track-abort-untrack': [ta(0), c('t', 'REQUESTED'), tb(0), c('u', 'REQUESTED')],
+        'track-add-untrack-abort': [c('t', 'FRIEND', gap=y0), ta(0), c('u', 'FRIEND'), tb(0)],
+        'add-abort-then-disconnect-relogin': [ta(0), tb(0), x('rst'), c('t', 'REQUESTED', 'u2')],
+    }
+    for mode in ('rst', 'eof', 'cut'):
+        for wait in (0.05, 12.0, 25.0):
+            hist[f'add-disconnect-relogin:{mode}:{wait:g}'] = [ta(0), x(mode, wait), c('t', 'REQUESTED', 'u2')]
+        hist[f'add-disconnect-relogin-abort:{mode}'] = [ta(0), x(mode), tb(0)]
+        hist[f'add-disconnect-relogin-twice:{mode}'] = [ta(0), x(mode), c('t', 'REQUESTED', 'u2'), x(mode, 12.0), tb(0)]
+        hist[f'add-track-disconnect-relogin-untrack:{mode}'] = [ta(0), c('t', 'REQUESTED'), x(mode), c('u', 'REQUESTED')]
+        hist[f'add-disconnect-at-end:{mode}'] = [ta(0), x(mode)]
+    out = []
+    for name, steps in hist.items():
+        for beh in ([], ['silence'], ['notexists']):
+            out.append({'mode': 'xfer', 'variant': name + (':' + beh[0] if beh else ''), 'k': '',
+                        'beh': {'u1': list(beh)}, 'steps': [dict(s_) for s_ in steps]})
+    return out
+
+
 # witnesses of earlier findings, kept as directed cases (shortest histories that exposed a mechanism)
 REGRESSION_CASES = [
     # 3932ee3: the tracking task is cancelled (connection cut) while it is cancelling its own retry timer
@@ -265,6 +392,12 @@ def cases(tier: str, seed: int) -> list[dict]:
     out = exhaustive_cases() + send_failure_sweep()
     for k, c in enumerate(REGRESSION_CASES):
         out.append(dict(c, mode='regression', seed=seed, idx=k))
+    out.extend(xfer_directed())
+    n = N_XFER[tier] - len(xfer_directed())
+    for i in range(n):
+        c = gen_xfer(seed, i, 2 + min(MAX_CALLS - 2, int(i / max(1, n) * 7)))
+        c.update(mode='xfer', seed=seed, idx=f'x{i}')
+        out.append(c)
     n = N_RANDOM[tier]
     for i in range(n):
         c = gen_random(seed, i, _length_for(i, n))
@@ -287,6 +420,8 @@ def gap_class(gap: list) -> str:
 def step_str(s: dict) -> str:
     if s['op'] == 'x':
         return f"[{gap_class(s['gap'])}]X:{s['mode']}:{s['wait']:g}"
+    if s['op'] in ('ta', 'tb', 'tr'):
+        return f"[{gap_class(s['gap'])}]{ {'ta': 'add', 'tb': 'abort', 'tr': 'remove'}[s['op']] }-transfer#{s['n']}:{s['u']}"
     return f"[{gap_class(s['gap'])}]{s['op']}:{s['u']}:{s['f'][0]}"
 
 
@@ -347,6 +482,14 @@ def judge(run: dict, choice: dict) -> tuple[list, dict]:
         calls[(e, c['u'])].append((c['t'], c['op'], c['f'], c['i']))
     finishing = {(c['epoch'], c['u']) for c in run['calls']
                  if c['phase'] == 'open' and c['op'] == 't' and c['worker_done']}
+    via = {c['i']: c.get('via') for c in run['calls']}          # how a TRANSFER reason change came about (family xfer)
+    relogin_reason = {(c['epoch'], c['u']) for c in run['calls'] if c.get('via') == 'relogin'}
+    removed_unfinished = {(c['epoch'], c['u']) for c in run['calls'] if c.get('via') == 'remove'}
+
+    def prompt(key, t_login, t_trans, i) -> float:
+        if key in relogin_reason and t_login is not None and t_trans <= t_login + PROMPT_RELOGIN:
+            return PROMPT_RELOGIN
+        return PROMPT_XFER if via.get(i) else PROMPT
 
     models: dict = {}
     for e in range(nep + 1):
@@ -383,7 +526,8 @@ def judge(run: dict, choice: dict) -> tuple[list, dict]:
                         n_up += 1
                         if n_up > len(ups) or t < ups[n_up - 1][0] - 1e-9:
                             viol.append(('extra-track-request', u, e, {'frame': f, 'model_transitions': trans}))
-                        elif not f.get('pseudo') and t > max(ups[n_up - 1][0], free_at, t_login or 0.0) + PROMPT:
+                        elif not f.get('pseudo') and t > max(ups[n_up - 1][0], free_at, t_login or 0.0) + \
+                                prompt(key, t_login, ups[n_up - 1][0], ups[n_up - 1][2]):
                             viol.append(('track-request-late', u, e, {
                                 'frame': f, 'reason_set_became_non_empty_at': ups[n_up - 1][0],
                                 'seconds_late': round(t - max(ups[n_up - 1][0], free_at), 4)}))
@@ -413,7 +557,8 @@ def judge(run: dict, choice: dict) -> tuple[list, dict]:
                         state = 'removed'
                         if n_down > len(downs):
                             viol.append(('extra-untrack-request', u, e, {'frame': f, 'model_transitions': trans}))
-                        elif not f.get('pseudo') and t > max(downs[n_down - 1][0], free_at, t_login or 0.0) + PROMPT:
+                        elif not f.get('pseudo') and t > max(downs[n_down - 1][0], free_at, t_login or 0.0) + \
+                                prompt(key, t_login, downs[n_down - 1][0], downs[n_down - 1][2]):
                             viol.append(('untrack-request-late', u, e, {
                                 'frame': f, 'reason_set_became_empty_at': downs[n_down - 1][0],
                                 'seconds_late': round(t - max(downs[n_down - 1][0], free_at), 4)}))
@@ -479,8 +624,15 @@ def judge(run: dict, choice: dict) -> tuple[list, dict]:
         stats['residue_checks'] += 1
         live_users = set()
         for u in USERS:
-            want = list(flags_at(models[(e, u)], s['t']))
+            want = list(flags_at(models[(e, u)], s['t'] - 1e-9))     # (a reason re-asserted for the login comes after)
             got = s['users'][u]
+            if not want and u in s.get('xfer_users', ()):
+                # an unfinished transfer remains: a management cycle may already have re-added the reason
+                live_users.add(u)
+                if got['flags'] not in ([], ['TRANSFER']):
+                    viol.append(('residue-after-disconnect:flags', u, e, {'snapshot': got, 't': s['t'],
+                                                                          'unfinished_transfer_remains': True}))
+                continue
             if want:
                 live_users.add(u)
                 if got['flags'] != want:
@@ -504,12 +656,20 @@ def judge(run: dict, choice: dict) -> tuple[list, dict]:
 
     # name the mechanism of the design pre-finding: everything that goes wrong for a user after a track call ran on
     # an entry whose worker had already returned is one finding
-    out, collapsed = [], {}
+    out, collapsed, kept_reason = [], {}, {}
     for sig, u, e, detail in viol:
         if (e, u) in finishing:
             collapsed.setdefault((e, u), []).append(sig)
+        elif (e, u) in removed_unfinished and sig.split(':')[0] in (
+                'missing-untrack-request', 'lost-call', 'state-mismatch', 'state-event-mismatch', 'duplicate-track-request',
+                'retry-after-untrack', 'missing-track-request', 'extra-untrack-request', 'untrack-request-late'):
+            # the consequences of one mechanism: the TRANSFER reason of a removed unfinished transfer is never withdrawn
+            kept_reason.setdefault((e, u), []).append(sig)
         else:
             out.append((sig, u, e, detail))
+    for (e, u), sigs in kept_reason.items():
+        ops = [c for c in run['calls'] if c['epoch'] == e and c['u'] == u and c.get('via') == 'remove']
+        out.append(('transfer-reason-outlives-removed-transfer', u, e, {'consequences': sorted(set(sigs)), 'removals': ops}))
     for (e, u), sigs in collapsed.items():
         hits = [c for c in run['calls'] if c['epoch'] == e and c['u'] == u and c['worker_done'] and c['op'] == 't']
         out.append(('lost-call:track-while-worker-finishing', u, e, {'consequences': sorted(set(sigs)), 'lost_calls': hits}))
@@ -534,6 +694,7 @@ def run_case(params: dict) -> dict:
     steps = params['steps']
     beh = {u: list(params.get('beh', {}).get(u, [])) for u in USERS}
     ncalls = sum(1 for s in steps if s['op'] != 'x')
+    xfer_mode = any(s['op'] in ('ta', 'tb', 'tr') for s in steps)
     if not 1 <= ncalls <= MAX_CALLS:
         res['inconclusive'] = f'sequence length {ncalls} outside 1..{MAX_CALLS}'
         return res
@@ -586,6 +747,29 @@ def run_case(params: dict) -> dict:
         client.events.register(ConnectionStateChangedEvent, closed_first, priority=-10 ** 6)
         client.events.register(ConnectionStateChangedEvent, closed_last, priority=10 ** 6)
 
+        # -- family xfer: the harness' own record of the transfers it created ------------------------
+        xfers: dict = {}              # n -> {'u': user, 'state': 'unfinished'|'finalized'|'removed', 'obj': Transfer}
+
+        def has_unfinished(user: str) -> bool:
+            return any(x['u'] == user and x['state'] == 'unfinished' for x in xfers.values())
+
+        def check_record():
+            for n, x in xfers.items():
+                if x['state'] == 'removed':
+                    if x['obj'] in client.transfers.transfers:
+                        raise RuntimeError(f'transfer #{n} was removed but is still listed')
+                elif x['obj'].is_finalized() != (x['state'] == 'finalized'):
+                    raise RuntimeError(f"transfer #{n}: harness record {x['state']} but library state "
+                                       f"{x['obj'].state.VALUE.name}")
+
+        def reason_call(i, user, op, how):
+            ent = tm._tracked_users.get(user)
+            run['calls'].append({
+                'i': i, 't': now(), 'it': w.loop.iterations, 'op': op, 'u': user, 'f': 'TRANSFER', 'epoch': st['epoch'],
+                'phase': 'open', 'after_cut': st['cut_pending'], 'entry': ent is not None, 'worker_done': False,
+                'via': how})
+            runner.add_obs(res, 'transfer_reason_transitions')
+
         rx_waiters: list = []
 
         def on_deliver(transport, chunk):
@@ -635,6 +819,9 @@ def run_case(params: dict) -> dict:
             snap['tasks'].sort(key=str)
             if kind == 'after-disconnect':
                 snap['others'] = sorted(n for n in tm._tracked_users if n not in USERS)
+            if xfers:
+                check_record()
+                snap['xfer_users'] = [u for u in USERS if has_unfinished(u)]
             run['snaps'].append(snap)
 
         async def ensure_session(wait: float):
@@ -643,12 +830,18 @@ def run_case(params: dict) -> dict:
                 return
             await settle(wait)
             snapshot('after-disconnect')
+            persisting = [u for u in USERS if has_unfinished(u)]
+            for n, u in enumerate(persisting):
+                # the reason outlived the session: it counts again for the session that is about to begin
+                reason_call(1000 + 10 * st['epoch'] + n, u, 't', 'relogin')
             await h.call(client.network.connect_server())
             await h.call(client.login())
             st['connected'] = True
             run['logins'][st['epoch']] = now()
             runner.add_obs(res, 'relogins')
-            await settle(0.05)
+            if persisting:
+                runner.add_obs(res, 'relogins_with_unfinished_transfer')
+            await settle(XFER_SETTLE if persisting else 0.05)
 
         def stuck_diag() -> dict:
             tasks = []
@@ -704,6 +897,35 @@ def run_case(params: dict) -> dict:
                     w.net.cut_now(session.writer.transport.conn, 'rst')
                 else:
                     session.close(s['mode'])
+                continue
+            if s['op'] in ('ta', 'tb', 'tr'):
+                async def xop(i=i, s=s):
+                    if not st['connected'] and not st['window']:
+                        return False
+                    user, n = s['u'], s['n']
+                    before = has_unfinished(user)
+                    try:
+                        if s['op'] == 'ta':
+                            obj = await client.transfers.download(user, f'@@vf\\dir\\file{n}.mp3', paused=True)
+                            xfers[n] = {'u': user, 'state': 'unfinished', 'obj': obj}
+                        elif s['op'] == 'tb':
+                            await client.transfers.abort(xfers[n]['obj'])
+                            xfers[n]['state'] = 'finalized'
+                        else:
+                            await client.transfers.remove(xfers[n]['obj'])
+                            xfers[n]['state'] = 'removed'
+                    except Exception as exc:  # noqa  (reported as a violation below, never swallowed)
+                        run['raised'].append([i, type(exc).__name__, repr(exc)[:200]])
+                        return True
+                    after = has_unfinished(user)
+                    if after != before:
+                        reason_call(i, user, 't' if after else 'u', {'ta': 'add', 'tb': 'abort', 'tr': 'remove'}[s['op']])
+                    return True
+                while not await h.call(xop()):
+                    await ensure_session(last_wait)
+                runner.add_obs(res, 'calls_issued')
+                runner.add_obs(res, 'transfer_ops')
+                await settle(XFER_SETTLE)       # the management cycle turns the change into track / untrack calls
                 continue
             user, flag = s['u'], TrackingFlag[s['f']]
 
@@ -857,6 +1079,8 @@ def run_case(params: dict) -> dict:
         runner.add_obs(res, 'exhaustive_gap_cases')
     if params.get('mode') == 'sweep':
         runner.add_obs(res, 'send_failure_sweep_cases')
+    if xfer_mode:
+        runner.add_obs(res, 'xfer_sequences')
     for s in steps:
         runner.add_cover(res, 'gap_kinds', s['gap'][0] if s['gap'][0] != 'd' else f"d{s['gap'][1]:g}")
     for per in run['frames'].values():
